@@ -6,6 +6,7 @@ import (
 	"math/rand"
 	"os"
 
+	"verifharness/sqlfault"
 	"verifharness/tr"
 )
 
@@ -37,6 +38,7 @@ func Run(args []string) error {
 		return err
 	}
 	defer os.RemoveAll(dir)
+	sqlfault.BusyTimeout(50) // a look-up that needs the store's lock while a transaction is open waits 50 ms, not 5 s
 	r := &runner{w: w, rng: rand.New(rand.NewSource(tr.Seed())), dir: dir, opts: Options{Twin: *twin, PerMethod: *per, ReadFaultQueries: *rfq}}
 	for i, b := range bs {
 		var mk func(dir string, rng *rand.Rand) (kindDriver, error)
